@@ -83,6 +83,13 @@ theorem tw_visitAll_log_prefix (cfg : TWCfg Node) (sd : Nat) : ∀ (evs : List (
     simp only [TW.visitAll]
     exact List.IsPrefix.trans (tw_visit_log_prefix H cfg sd a c) (ih _)
 
+theorem tw_replaceTerminal_log_prefix (cfg : TWCfg Node) (a : TW Node) (ops : List (Key × VH)) :
+    a.log <+: (a.replaceTerminal H cfg ops).log := by
+  unfold TW.replaceTerminal
+  split
+  · exact tw_visitAll_log_prefix H cfg _ _ _
+  · exact List.prefix_refl _
+
 theorem tw_compactStep_log (a : TW Node) : (a.compactStep H).2.log = a.log := by
   rw [tw_compactStep_snd]
   split
